@@ -211,6 +211,113 @@ func (n *normalizer) wantsInlining(fn *types.Func, h *ast.FuncDecl) bool {
 
 var inlineCounter int
 
+// bindCall prepares the inlining of one call of h: fresh names for everything
+// the callee defines, parameters (and the receiver) either substituted by the
+// argument (an identifier, constant or &local, for a parameter the callee never
+// assigns) or bound to a fresh local in argument order.
+func (n *normalizer) bindCall(h *ast.FuncDecl, call *ast.CallExpr) (map[types.Object]string, []string, bool) {
+	p := n.p
+	info := p.Info
+	inlineCounter++
+	sfx := fmt.Sprintf("_i%d", inlineCounter)
+	n.lastSfx = sfx
+	subst := map[types.Object]string{}
+	var pre []string
+	type binding struct {
+		obj types.Object
+		arg ast.Expr
+	}
+	var binds []binding
+	if ro := p.recvObj(h); ro != nil {
+		se, ok := call.Fun.(*ast.SelectorExpr)
+		if !ok {
+			return nil, nil, false
+		}
+		binds = append(binds, binding{ro, se.X})
+	} else if h.Recv != nil {
+		return nil, nil, false
+	}
+	params := paramObjs(info, h)
+	if len(params) != len(call.Args) {
+		return nil, nil, false
+	}
+	for i, po := range params {
+		if po == nil {
+			return nil, nil, false
+		}
+		binds = append(binds, binding{po, call.Args[i]})
+	}
+	ast.Inspect(h, func(x ast.Node) bool {
+		if id, ok := x.(*ast.Ident); ok {
+			if o := info.Defs[id]; o != nil {
+				if v, isVar := o.(*types.Var); isVar && !v.IsField() && id.Name != "_" {
+					subst[o] = id.Name + sfx
+				}
+			}
+		}
+		return true
+	})
+	for _, b := range binds {
+		arg := b.arg
+		for {
+			if pe, ok := arg.(*ast.ParenExpr); ok {
+				arg = pe.X
+				continue
+			}
+			break
+		}
+		simple := false
+		switch a := arg.(type) {
+		case *ast.Ident:
+			if v, ok := info.Uses[a].(*types.Var); ok && !v.IsField() {
+				simple = true
+			}
+			if _, isConst := info.Uses[a].(*types.Const); isConst {
+				simple = true
+			}
+		case *ast.BasicLit:
+			simple = true
+		case *ast.UnaryExpr:
+			// &x of a local record for a pointer parameter: the record itself
+			// (selectors auto-dereference; any other use fails to type-check)
+			if a.Op == token.AND {
+				if id, ok := a.X.(*ast.Ident); ok {
+					if v, ok := info.Uses[id].(*types.Var); ok && !v.IsField() && v.Parent() != p.P.Types.Scope() {
+						arg = id
+						simple = true
+					}
+				}
+			}
+		}
+		if tv, ok := info.Types[arg]; ok && tv.Value != nil {
+			simple = true
+		}
+		if simple && !assignedIn(info, h.Body, b.obj) {
+			t, err := n.flatText(arg.Pos(), arg.End(), []ast.Node{arg}, nil)
+			if err != nil {
+				return nil, nil, false
+			}
+			if _, isId := arg.(*ast.Ident); !isId {
+				t = "(" + t + ")"
+			}
+			subst[b.obj] = t
+			continue
+		}
+		t, err := n.flatText(arg.Pos(), arg.End(), []ast.Node{arg}, nil)
+		if err != nil {
+			return nil, nil, false
+		}
+		ts := types.TypeString(b.obj.Type(), func(pk *types.Package) string {
+			if pk == p.P.Types {
+				return ""
+			}
+			return pk.Name()
+		})
+		pre = append(pre, fmt.Sprintf("var %s %s = %s", subst[b.obj], ts, t))
+	}
+	return subst, pre, true
+}
+
 // inlinePass inlines, in fd, the statement-level calls the policy selects. One
 // level per pass (the caller reloads and repeats).
 func (n *normalizer) inlinePass(fd *ast.FuncDecl) (bool, error) {
@@ -272,115 +379,12 @@ func (n *normalizer) inlinePass(fd *ast.FuncDecl) (bool, error) {
 			if rec {
 				continue
 			}
-			inlineCounter++
-			sfx := fmt.Sprintf("_i%d", inlineCounter)
-			subst := map[types.Object]string{}
-			var pre []string
-			// receiver and parameters
-			type binding struct {
-				obj types.Object
-				arg ast.Expr
-			}
-			var binds []binding
-			if ro := p.recvObj(h); ro != nil {
-				se, ok := call.Fun.(*ast.SelectorExpr)
-				if !ok {
-					continue
-				}
-				binds = append(binds, binding{ro, se.X})
-			} else if h.Recv != nil {
-				continue // unnamed receiver: nothing to bind, but keep it simple
-			}
-			params := paramObjs(info, h)
-			if len(params) != len(call.Args) {
+			subst, pre, okBind := n.bindCall(h, call)
+			if !okBind {
 				continue
 			}
-			okB := true
-			for i, po := range params {
-				if po == nil {
-					okB = false
-					break
-				}
-				binds = append(binds, binding{po, call.Args[i]})
-			}
-			if !okB {
-				continue
-			}
-			// every object defined in the callee gets a fresh name
-			ast.Inspect(h, func(x ast.Node) bool {
-				if id, ok := x.(*ast.Ident); ok {
-					if o := info.Defs[id]; o != nil {
-						if _, isVar := o.(*types.Var); isVar && !o.(*types.Var).IsField() && id.Name != "_" {
-							subst[o] = id.Name + sfx
-						}
-					}
-				}
-				return true
-			})
+			sfx := n.lastSfx
 			bad := false
-			for _, b := range binds {
-				arg := b.arg
-				for {
-					if pe, ok := arg.(*ast.ParenExpr); ok {
-						arg = pe.X
-						continue
-					}
-					break
-				}
-				simple := false
-				switch a := arg.(type) {
-				case *ast.Ident:
-					if v, ok := info.Uses[a].(*types.Var); ok && !v.IsField() {
-						simple = true
-					}
-					if _, isConst := info.Uses[a].(*types.Const); isConst {
-						simple = true
-					}
-				case *ast.BasicLit:
-					simple = true
-				case *ast.UnaryExpr:
-					// &x of a local record for a pointer parameter: the record itself
-					// (selectors auto-dereference; any other use fails to type-check)
-					if a.Op == token.AND {
-						if id, ok := a.X.(*ast.Ident); ok {
-							if v, ok := info.Uses[id].(*types.Var); ok && !v.IsField() && v.Parent() != p.P.Types.Scope() {
-								arg = id
-								simple = true
-							}
-						}
-					}
-				}
-				if tv, ok := info.Types[arg]; ok && tv.Value != nil {
-					simple = true
-				}
-				if simple && !assignedIn(info, h.Body, b.obj) {
-					t, err := n.flatText(arg.Pos(), arg.End(), []ast.Node{arg}, nil)
-					if err != nil {
-						bad = true
-						break
-					}
-					if _, isLit := arg.(*ast.Ident); !isLit {
-						t = "(" + t + ")"
-					}
-					subst[b.obj] = t
-					continue
-				}
-				t, err := n.flatText(arg.Pos(), arg.End(), []ast.Node{arg}, nil)
-				if err != nil {
-					bad = true
-					break
-				}
-				ts := types.TypeString(b.obj.Type(), func(pk *types.Package) string {
-					if pk == p.P.Types {
-						return ""
-					}
-					return pk.Name()
-				})
-				pre = append(pre, fmt.Sprintf("var %s %s = %s", subst[b.obj], ts, t))
-			}
-			if bad {
-				continue
-			}
 			// named results
 			ros := resultObjs(info, h)
 			for _, ro := range ros {
@@ -1054,6 +1058,602 @@ func (w *World) inlinedWorld(key string, methods []string) (*World, []string, er
 	}
 	if err := pass(func(n *normalizer, fd *ast.FuncDecl) (bool, error) { return n.normalizeFunc(fd) }, 2); err != nil {
 		return nil, notes, err
+	}
+	if !any {
+		return nil, nil, nil
+	}
+	cur.normalized = true
+	return cur, notes, nil
+}
+
+// ---------------------------------------------------------------------------
+// Guarded inlining: Go's error / ok protocols.
+//
+//	x, err := h(args)            or      if err := h(args); err != nil { BODY }
+//	if err != nil { BODY }
+//
+// where BODY ends in a return. Every `return E1, …, Ek` of h is decided against
+// the guard with the results substituted:
+//   - the guard holds (E is a provably non-nil error, the literal false for
+//     `!ok`, …): the return becomes BODY with the results in place of the
+//     guard's variables;
+//   - the guard fails (literal nil / true): the caller goes on after the call;
+//     this is expressible when the return is the callee's last statement
+//     (control falls through) or sits directly in the callee's last top-level
+//     loop (it becomes `results…; break`);
+//   - anything else: the call is left alone.
+//
+// The result is the function the call was extracted from.
+
+type guardSite struct {
+	first, last ast.Stmt // statements replaced (the same one for the if-with-init form)
+	call        *ast.CallExpr
+	lhs         []ast.Expr
+	tok         token.Token
+	cond        ast.Expr
+	body        *ast.BlockStmt
+	restUses    bool // the results are used after the guard
+}
+
+// guardVerdict evaluates cond with the guard variables replaced by the
+// returned expressions: +1 holds, -1 fails, 0 unknown.
+func (n *normalizer) guardVerdict(cond ast.Expr, vars []types.Object, rets []ast.Expr, h *ast.FuncDecl) int {
+	p := n.p
+	info := p.Info
+	retOf := func(e ast.Expr) ast.Expr {
+		o := identObj(info, e)
+		if o == nil {
+			return nil
+		}
+		for i, v := range vars {
+			if v == o && i < len(rets) {
+				return rets[i]
+			}
+		}
+		return nil
+	}
+	// classification of a returned expression
+	isNilLit := func(e ast.Expr) bool { return isNilIdent(info, e) }
+	nonNil := func(e ast.Expr) bool {
+		if p.provablyNonNilErr(e, 0) {
+			return true
+		}
+		if tn, _, ok := p.typedErrOf(e); ok && tn != "" {
+			return true
+		}
+		// `return err` inside `if err != nil { … }` of the callee
+		if o := identObj(info, e); o != nil {
+			var stack []ast.Node
+			found := false
+			ast.Inspect(h.Body, func(x ast.Node) bool {
+				if x == nil {
+					stack = stack[:len(stack)-1]
+					return false
+				}
+				stack = append(stack, x)
+				if x == ast.Node(e) {
+					for i := len(stack) - 1; i >= 0; i-- {
+						ifs, ok := stack[i].(*ast.IfStmt)
+						if !ok || i+1 >= len(stack) || stack[i+1] != ast.Node(ifs.Body) {
+							continue
+						}
+						if be, ok := ifs.Cond.(*ast.BinaryExpr); ok && be.Op == token.NEQ && identObj(info, be.X) == o && isNilIdent(info, be.Y) && !assignedIn(info, ifs.Body, o) {
+							found = true
+						}
+					}
+				}
+				return true
+			})
+			return found
+		}
+		return false
+	}
+	var ev func(c ast.Expr) int
+	ev = func(c ast.Expr) int {
+		switch x := c.(type) {
+		case *ast.ParenExpr:
+			return ev(x.X)
+		case *ast.UnaryExpr:
+			if x.Op == token.NOT {
+				return -ev(x.X)
+			}
+		case *ast.Ident:
+			if r := retOf(x); r != nil {
+				if b, ok := constBool(info, r); ok {
+					if b {
+						return 1
+					}
+					return -1
+				}
+			}
+		case *ast.BinaryExpr:
+			switch x.Op {
+			case token.LAND:
+				a, b := ev(x.X), ev(x.Y)
+				if a == -1 || b == -1 {
+					return -1
+				}
+				if a == 1 && b == 1 {
+					return 1
+				}
+				return 0
+			case token.LOR:
+				a, b := ev(x.X), ev(x.Y)
+				if a == 1 || b == 1 {
+					return 1
+				}
+				if a == -1 && b == -1 {
+					return -1
+				}
+				return 0
+			case token.EQL, token.NEQ:
+				sign := 1
+				if x.Op == token.NEQ {
+					sign = -1
+				}
+				var r, other ast.Expr
+				if r = retOf(x.X); r != nil {
+					other = x.Y
+				} else if r = retOf(x.Y); r != nil {
+					other = x.X
+				}
+				if r == nil {
+					return 0
+				}
+				if isNilIdent(info, other) {
+					switch {
+					case isNilLit(r):
+						return sign
+					case nonNil(r):
+						return -sign
+					}
+					return 0
+				}
+				if s, ok := constString(info, other); ok {
+					if rs, ok := constString(info, r); ok {
+						if rs == s {
+							return sign
+						}
+						return -sign
+					}
+					return 0
+				}
+				if b, ok := constBool(info, other); ok {
+					if rb, ok := constBool(info, r); ok {
+						if rb == b {
+							return sign
+						}
+						return -sign
+					}
+				}
+			}
+		}
+		return 0
+	}
+	return ev(cond)
+}
+
+func constBool(info *types.Info, e ast.Expr) (bool, bool) {
+	tv, ok := info.Types[e]
+	if !ok || tv.Value == nil {
+		return false, false
+	}
+	if tv.Value.Kind().String() != "Bool" {
+		return false, false
+	}
+	return tv.Value.String() == "true", true
+}
+
+func (n *normalizer) guardedInlinePass(fd *ast.FuncDecl) (bool, error) {
+	p := n.p
+	info := p.Info
+	changed := false
+	var lists [][]ast.Stmt
+	ast.Inspect(fd.Body, func(x ast.Node) bool {
+		switch b := x.(type) {
+		case *ast.BlockStmt:
+			lists = append(lists, b.List)
+		case *ast.CaseClause:
+			lists = append(lists, b.Body)
+		}
+		return true
+	})
+	terminates := func(b *ast.BlockStmt) bool {
+		if b == nil || len(b.List) == 0 {
+			return false
+		}
+		_, ok := b.List[len(b.List)-1].(*ast.ReturnStmt)
+		return ok
+	}
+	for _, list := range lists {
+		for i := 0; i < len(list); i++ {
+			var site *guardSite
+			switch s := list[i].(type) {
+			case *ast.IfStmt:
+				if as, ok := s.Init.(*ast.AssignStmt); ok && s.Else == nil && terminates(s.Body) && len(as.Rhs) == 1 && as.Tok == token.DEFINE {
+					if c, ok := as.Rhs[0].(*ast.CallExpr); ok {
+						site = &guardSite{first: s, last: s, call: c, lhs: as.Lhs, tok: as.Tok, cond: s.Cond, body: s.Body}
+					}
+				}
+			case *ast.AssignStmt:
+				if len(s.Rhs) == 1 && (s.Tok == token.DEFINE || s.Tok == token.ASSIGN) && i+1 < len(list) {
+					if c, ok := s.Rhs[0].(*ast.CallExpr); ok {
+						if ifs, ok := list[i+1].(*ast.IfStmt); ok && ifs.Init == nil && ifs.Else == nil && terminates(ifs.Body) {
+							site = &guardSite{first: s, last: ifs, call: c, lhs: s.Lhs, tok: s.Tok, cond: ifs.Cond, body: ifs.Body, restUses: true}
+						}
+					}
+				}
+			}
+			if site == nil {
+				continue
+			}
+			fn := calleeOf(info, site.call)
+			if fn == nil || fn.Pkg() != p.P.Types {
+				continue
+			}
+			h := p.FuncObj[fn]
+			if h == nil || h == fd || h.Body == nil || len(h.Body.List) == 0 || ast.IsExported(h.Name.Name) {
+				continue
+			}
+			sig := fn.Type().(*types.Signature)
+			if sig.Results().Len() == 0 || sig.Results().Len() != len(site.lhs) {
+				continue
+			}
+			// the protocol result is the last one: an error or a bool
+			lastT := sig.Results().At(sig.Results().Len() - 1).Type()
+			if _, isIface := lastT.Underlying().(*types.Interface); !isIface {
+				if b, ok := lastT.Underlying().(*types.Basic); !ok || b.Kind() != types.Bool {
+					continue
+				}
+			}
+			// shape of the callee
+			okShape := true
+			var rets []*ast.ReturnStmt
+			ast.Inspect(h.Body, func(x ast.Node) bool {
+				switch y := x.(type) {
+				case *ast.ReturnStmt:
+					rets = append(rets, y)
+					if len(y.Results) != len(site.lhs) {
+						okShape = false // naked return or f() forwarding
+					}
+				case *ast.DeferStmt, *ast.GoStmt, *ast.FuncLit, *ast.LabeledStmt, *ast.SelectStmt:
+					okShape = false
+				case *ast.BranchStmt:
+					if y.Tok == token.GOTO || y.Label != nil {
+						okShape = false
+					}
+				case *ast.CallExpr:
+					if f2 := calleeOf(info, y); f2 == fn {
+						okShape = false
+					}
+				}
+				return okShape
+			})
+			if !okShape || len(rets) == 0 {
+				continue
+			}
+			// guard variables
+			var gvars []types.Object
+			okVars := true
+			for _, l := range site.lhs {
+				id, ok := l.(*ast.Ident)
+				if !ok {
+					okVars = false
+					break
+				}
+				o := info.Defs[id]
+				if o == nil {
+					o = info.Uses[id]
+				}
+				gvars = append(gvars, o) // nil for "_"
+			}
+			if !okVars {
+				continue
+			}
+			// the guard may only speak about its variables and constants
+			condOK := true
+			ast.Inspect(site.cond, func(x ast.Node) bool {
+				if id, ok := x.(*ast.Ident); ok {
+					if v, ok := info.Uses[id].(*types.Var); ok {
+						mine := false
+						for _, g := range gvars {
+							if g == types.Object(v) {
+								mine = true
+							}
+						}
+						if !mine && v.Parent() != p.P.Types.Scope() {
+							condOK = false
+						}
+					}
+				}
+				return true
+			})
+			if !condOK {
+				continue
+			}
+			// position of each return in the callee
+			lastStmt := h.Body.List[len(h.Body.List)-1]
+			// a `break` out of the callee's loop must land right after the inlined
+			// text: the loop has to be the callee's very last statement
+			var tailLoop ast.Stmt
+			switch lastStmt.(type) {
+			case *ast.ForStmt, *ast.RangeStmt:
+				tailLoop = lastStmt
+			}
+			innermostBreakable := func(r *ast.ReturnStmt) ast.Node {
+				var stack []ast.Node
+				var res ast.Node
+				ast.Inspect(h.Body, func(x ast.Node) bool {
+					if x == nil {
+						stack = stack[:len(stack)-1]
+						return false
+					}
+					stack = append(stack, x)
+					if x == ast.Node(r) {
+						for k := len(stack) - 2; k >= 0; k-- {
+							switch stack[k].(type) {
+							case *ast.ForStmt, *ast.RangeStmt, *ast.SwitchStmt, *ast.TypeSwitchStmt, *ast.SelectStmt:
+								res = stack[k]
+								return false
+							}
+						}
+					}
+					return true
+				})
+				return res
+			}
+			subst, pre, okBind := n.bindCall(h, site.call)
+			if !okBind {
+				continue
+			}
+			sfx := n.lastSfx
+			_ = sfx
+			// lhs texts
+			var ls []string
+			for _, l := range site.lhs {
+				t, err := n.flatText(l.Pos(), l.End(), nil, nil)
+				if err != nil {
+					okShape = false
+				}
+				ls = append(ls, t)
+			}
+			if !okShape {
+				continue
+			}
+			type repl struct {
+				r    *ast.ReturnStmt
+				text string
+			}
+			var repls []repl
+			needDecl := false
+			okAll := true
+			for _, r := range rets {
+				var rexprs []ast.Expr
+				rexprs = append(rexprs, r.Results...)
+				v := n.guardVerdict(site.cond, gvars, rexprs, h)
+				var rtexts []string
+				for _, e := range r.Results {
+					t, err := n.flatText(e.Pos(), e.End(), []ast.Node{e}, subst)
+					if err != nil {
+						okAll = false
+					}
+					rtexts = append(rtexts, t)
+				}
+				if !okAll {
+					break
+				}
+				switch v {
+				case 1:
+					// BODY with the guard variables replaced by the returned expressions
+					bsub := map[types.Object]string{}
+					for k, g := range gvars {
+						if g != nil {
+							bsub[g] = "(" + rtexts[k] + ")"
+							if _, isId := r.Results[k].(*ast.Ident); isId {
+								bsub[g] = rtexts[k]
+							}
+						}
+					}
+					var nodes []ast.Node
+					for _, b := range site.body.List {
+						nodes = append(nodes, b)
+					}
+					bt, err := n.flatText(site.body.List[0].Pos(), site.body.List[len(site.body.List)-1].End(), nodes, bsub)
+					if err != nil {
+						okAll = false
+						break
+					}
+					repls = append(repls, repl{r, bt})
+				case -1:
+					assign := ""
+					if site.restUses {
+						var as []string
+						for k := range ls {
+							if ls[k] != "_" {
+								as = append(as, ls[k]+" = "+rtexts[k])
+							}
+						}
+						assign = strings.Join(as, "; ")
+						needDecl = true
+					}
+					switch {
+					case ast.Stmt(r) == lastStmt:
+						repls = append(repls, repl{r, assign})
+					case tailLoop != nil && innermostBreakable(r) == ast.Node(tailLoop):
+						if assign != "" {
+							repls = append(repls, repl{r, "{ " + assign + "; break }"})
+						} else {
+							repls = append(repls, repl{r, "break"})
+						}
+					default:
+						okAll = false
+					}
+				default:
+					okAll = false
+				}
+				if !okAll {
+					break
+				}
+			}
+			if !okAll {
+				continue
+			}
+			// when the tail loop is followed by a final return, a `break` must reach the
+			// statements after the inlined text: only if that final return is a guard-fails one
+			// (its replacement is the plain assignment above) — ensured by the case analysis.
+			// Body text with the returns replaced (from the last to the first).
+			_, o1 := n.file(h.Body.List[0].Pos())
+			fnm, _ := n.file(h.Body.List[0].Pos())
+			_, o2 := n.file(h.Body.List[len(h.Body.List)-1].End())
+			src, err := n.source(fnm)
+			if err != nil {
+				continue
+			}
+			type span struct {
+				a, b int
+				t    string
+			}
+			var spans []span
+			for _, rp := range repls {
+				_, a := n.file(rp.r.Pos())
+				_, b := n.file(rp.r.End())
+				spans = append(spans, span{a, b, "\x00" + rp.text + "\x00"})
+			}
+			// identifiers (outside the replaced returns)
+			ast.Inspect(h.Body, func(x ast.Node) bool {
+				if _, isRet := x.(*ast.ReturnStmt); isRet {
+					return false
+				}
+				if id, ok := x.(*ast.Ident); ok {
+					obj := info.Uses[id]
+					if obj == nil {
+						obj = info.Defs[id]
+					}
+					if t, ok := subst[obj]; ok && obj != nil {
+						_, a := n.file(id.Pos())
+						spans = append(spans, span{a, a + len(id.Name), t})
+					}
+				}
+				return true
+			})
+			sort.Slice(spans, func(x, y int) bool { return spans[x].a > spans[y].a })
+			text := string(src[o1:o2])
+			for _, sp := range spans {
+				text = text[:sp.a-o1] + sp.t + text[sp.b-o1:]
+			}
+			// flatten (comments, newlines) piecewise around the protected replacements
+			pieces := strings.Split(text, "\x00")
+			var flat []string
+			okFlat := true
+			for k, pc := range pieces {
+				if k%2 == 1 {
+					flat = append(flat, pc)
+					continue
+				}
+				ft, err := flattenGo(pc, k == len(pieces)-1)
+				if err != nil {
+					okFlat = false
+					break
+				}
+				flat = append(flat, ft)
+			}
+			if !okFlat {
+				continue
+			}
+			var parts []string
+			if needDecl && site.tok == token.DEFINE {
+				for k, l := range ls {
+					if l == "_" {
+						continue
+					}
+					ts := types.TypeString(sig.Results().At(k).Type(), func(pk *types.Package) string {
+						if pk == p.P.Types {
+							return ""
+						}
+						return pk.Name()
+					})
+					parts = append(parts, fmt.Sprintf("var %s %s; _ = %s", l, ts, l))
+				}
+			}
+			parts = append(parts, pre...)
+			for _, pr := range pre {
+				f := strings.Fields(pr)
+				if len(f) >= 2 {
+					parts = append(parts, "_ = "+f[1])
+				}
+			}
+			body := strings.TrimSpace(strings.Join(flat, " "))
+			body = strings.TrimSuffix(strings.TrimSpace(body), ";")
+			parts = append(parts, body)
+			if err := n.edit(site.first.Pos(), site.last.End(), strings.Join(parts, "; ")); err != nil {
+				return false, err
+			}
+			changed = true
+			n.notes = append(n.notes, fmt.Sprintf("%s: the guarded call of %s is replaced by its body (returns decided against `%s`)", fd.Name.Name, h.Name.Name, types.ExprString(site.cond)))
+			if site.first != site.last {
+				i++
+			}
+		}
+	}
+	return changed, nil
+}
+
+// flattenGo renders a fragment of Go source on one line without comments.
+func flattenGo(text string, trimEnd bool) (string, error) {
+	var sc scanner.Scanner
+	fs := token.NewFileSet()
+	f := fs.AddFile("", fs.Base(), len(text))
+	var scanErr error
+	sc.Init(f, []byte(text), func(pos token.Position, msg string) { scanErr = fmt.Errorf("%s", msg) }, 0)
+	var toks []string
+	for {
+		_, tok, lit := sc.Scan()
+		if tok == token.EOF {
+			break
+		}
+		switch {
+		case tok == token.SEMICOLON:
+			toks = append(toks, ";")
+		case lit != "":
+			toks = append(toks, lit)
+		default:
+			toks = append(toks, tok.String())
+		}
+	}
+	if scanErr != nil {
+		return "", scanErr
+	}
+	for trimEnd && len(toks) > 0 && toks[len(toks)-1] == ";" {
+		toks = toks[:len(toks)-1]
+	}
+	return strings.Join(toks, " "), nil
+}
+
+// inlinedParserWorld: guarded and flat inlining applied to ParseVector.
+func (w *World) inlinedParserWorld(key string) (*World, []string, error) {
+	cur := w
+	var notes []string
+	any := false
+	for iter := 0; iter < 6; iter++ {
+		n := cur.newNormalizer(key)
+		fd := cur.Pkgs[key].Funcs["ParseVector"]
+		if fd == nil || fd.Body == nil {
+			break
+		}
+		ch, err := n.guardedInlinePass(fd)
+		if err != nil {
+			return nil, notes, err
+		}
+		if !ch {
+			break
+		}
+		w2, err := cur.applyEdits(n)
+		if err != nil {
+			return nil, notes, err
+		}
+		notes = append(notes, n.notes...)
+		cur = w2
+		any = true
 	}
 	if !any {
 		return nil, nil, nil
